@@ -135,3 +135,7 @@ package nuget
 //@   ensures exclusive: strings.HasPrefix(strings.TrimSpace(rangeStr), "(") && strings.HasSuffix(strings.TrimSpace(rangeStr), ")") && strings.TrimSpace(rangeStr) != "()" && strings.Contains(strings.TrimSpace(rangeStr), ",") ==> result0 == parseExclusiveRange(e, strings.TrimSpace(rangeStr)).0 && (result1 == nil) == (parseExclusiveRange(e, strings.TrimSpace(rangeStr)).1 == nil)   [C05]
 //@   ensures half-open: ((strings.HasPrefix(strings.TrimSpace(rangeStr), "[") && strings.HasSuffix(strings.TrimSpace(rangeStr), ")")) || (strings.HasPrefix(strings.TrimSpace(rangeStr), "(") && strings.HasSuffix(strings.TrimSpace(rangeStr), "]"))) && strings.Contains(strings.TrimSpace(rangeStr), ",") ==> result0 == parseMixedRange(e, strings.TrimSpace(rangeStr)).0 && (result1 == nil) == (parseMixedRange(e, strings.TrimSpace(rangeStr)).1 == nil)   [C05]
 //@   ensures minimum: !bracketed(strings.TrimSpace(rangeStr)) && !strings.Contains(strings.TrimSpace(rangeStr), ",") && result1 == nil ==> len(result0) == 1 && result0[0].operator == ">=" && result0[0].version == e.NewVersion(strings.TrimSpace(rangeStr)).0   [C05]
+
+// ---- the registered name (the VERS evaluator and the CLI select behaviour by it)
+//@ func (*Ecosystem).Name
+//@   ensures result == "nuget"   [C04 C15 C17]
